@@ -299,6 +299,12 @@ func SignPSS(rand io.Reader, priv *PrivateKey, hash crypto.Hash, digest []byte, 
 	// }
 	// boring.UnreachableExceptTests()
 
+	// ZCrypto - reject a missing modulus and a missing or non-positive
+	// exponent before priv.N.BitLen() and decrypt dereference them.
+	if err := checkPub(&priv.PublicKey); err != nil {
+		return nil, err
+	}
+
 	if opts != nil && opts.Hash != 0 {
 		hash = opts.Hash
 	}
